@@ -428,6 +428,19 @@ func (eng *Engine) verifyFunc(ct *Contract) (res *FuncResult) {
 		for _, ax := range eng.axioms[p.PkgPath] {
 			x.clauseInfo = append(x.clauseInfo, ax.Info)
 			x.frames = append(x.frames, &Frame{fi: fi, info: p.TypesInfo, inlined: true})
+			// "Global == literal" binds the global's entry value directly
+			if be, ok := ax.Expr.(*ast.BinaryExpr); ok && be.Op == token.EQL {
+				if id, ok := be.X.(*ast.Ident); ok {
+					if gv, ok := x.objOf(id).(*types.Var); ok && x.isGlobal(gv) {
+						if _, has := s.heap[x.globalName(gv)]; !has {
+							x.heapSet(s, x.globalName(gv), x.eval(s, be.Y))
+							x.frames = x.frames[:len(x.frames)-1]
+							x.clauseInfo = x.clauseInfo[:len(x.clauseInfo)-1]
+							continue
+						}
+					}
+				}
+			}
 			s.assume(x.evalCond(s, ax.Expr))
 			x.frames = x.frames[:len(x.frames)-1]
 			x.clauseInfo = x.clauseInfo[:len(x.clauseInfo)-1]
@@ -463,7 +476,9 @@ func (eng *Engine) verifyFunc(ct *Contract) (res *FuncResult) {
 				if len(f.rets) > 1 {
 					name = fmt.Sprintf("%s/ensures#%d.ret%d", fi.Key, en.Ord, ri+1)
 				}
+				x.curClause = en
 				x.obligeNamed(r.s, name, "ensures", g, en.Line, en.Text)
+				x.curClause = nil
 			}
 		}
 		res.Paths = len(f.rets)
